@@ -17,7 +17,7 @@ TECHNIQUE = "solo-replay differential over interleaved multi-instance request hi
 RULE = ("k=2..3 instances, 3-8 requests each from {begin-session (with / without settings), run-step with constants / points / {} / no body, "
         "run-steps, stream-steps, session-results, flat-session-results, end-session, keep-alive, stop-instance}; ALL interleavings of 2x3 requests "
         "for 12 script pairs (quick) / 40 (thorough) + seeded random interleavings of longer scripts; one instance stopped or timed out "
-        "(controlled clock) midway; two factory styles (model per instance / one shared module-level model); with and without a file adapter. "
+        "(controlled clock) midway; instances created up front, lazily (also after another instance was stopped) or by one /start-instances batch; two factory styles (model per instance / one shared module-level model); with and without a file adapter. "
         "distinct_nontrivial = distinct (script pair, interleaving) in which both instances change settings and at least one request of one "
         "instance lies between two requests of the other.")
 ASSUMPTIONS = ["the instance that is stopped / timed out is not compared after that point; all others are",
@@ -61,7 +61,7 @@ def gen_cases(tier, seed):
         cases.append(dict(kind="all2x3", seed=rng.randrange(10 ** 9), shared=bool(i % 2), adapter=bool(i % 3 == 0)))
     for i in range(60 if tier == "quick" else 1500):
         cases.append(dict(kind="random", seed=rng.randrange(10 ** 9), shared=bool(i % 2), adapter=bool(i % 4 == 0), k=rng.choice([2, 3]),
-                          kill=rng.choice([None, "stop", "timeout", "stop"])))
+                          kill=rng.choice([None, "stop", "timeout", "stop"]), creation=["upfront", "lazy", "batch"][i % 3]))
     return cases
 
 
@@ -83,7 +83,7 @@ def norm(body, ids):
         return body
 
 
-def play(scripts, order, shared, adapter, kill=None, kill_at=None, short=None):
+def play(scripts, order, shared, adapter, kill=None, kill_at=None, short=None, creation="upfront"):
     """Runs the interleaving `order` (list of instance indices) on a fresh server.
     Returns per-instance list of (status, normalised body)."""
     from vlib import srv
@@ -96,18 +96,29 @@ def play(scripts, order, shared, adapter, kill=None, kill_at=None, short=None):
         c = app.test_client()
         try:
             ids = {}
-            for i in sorted(scripts):
-                to = {"seconds": 30} if (short is not None and i == short) else {"hours": 6}
-                ids[i] = json.loads(c.post("/start-instance", json={"timeout": to}).get_data(as_text=True))["instance_uuid"]
+
+            def timeout_of(i):
+                return {"seconds": 30} if (short is not None and i == short) else {"hours": 6}
+            if creation == "batch":
+                # one /start-instances request for all of them
+                batch = json.loads(c.post("/start-instances", json={"instances": len(scripts), "timeout": {"hours": 6}}).get_data(as_text=True))["instance_uuids"]
+                for i, iid in zip(sorted(scripts), batch):
+                    ids[i] = iid
+            elif creation == "upfront":
+                for i in sorted(scripts):
+                    ids[i] = json.loads(c.post("/start-instance", json={"timeout": timeout_of(i)}).get_data(as_text=True))["instance_uuid"]
             pos = {i: 0 for i in scripts}
             for n, i in enumerate(order):
                 if kill is not None and n == kill_at:
-                    if kill == "stop":
+                    if kill == "stop" and short in ids:
                         c.post("/%s/stop-instance" % ids[short])
                     else:
                         clock.advance(seconds=45)       # the short-timeout instance expires; nobody else does
                         c.get("/full-metrics")
                 clock.advance(seconds=1)
+                if i not in ids:
+                    # lazy creation: the instance is started right before its first request (possibly after another one was stopped)
+                    ids[i] = json.loads(c.post("/start-instance", json={"timeout": timeout_of(i)}).get_data(as_text=True))["instance_uuid"]
                 kind, body = scripts[i][pos[i]]
                 pos[i] += 1
                 method, url = URL[kind]
@@ -139,9 +150,17 @@ def run_case(case):
             o = list(order)
             rng.shuffle(o)
             orders.append(o)
-        kill = case["kill"]
+        kill = case["kill"] if case.get("creation") != "batch" else None
         short = 0 if kill else None
         kill_at = rng.randrange(1, len(order)) if kill else None
+        if case.get("creation") == "lazy" and kill == "stop":
+            # the stopped instance finishes its script first and is stopped; a later instance is then started (engine reuse must not leak)
+            late = max(scripts)
+            rest = [i for i in order if i not in (short, late)]
+            rng.shuffle(rest)
+            first = [short] * len(scripts[short])
+            orders = [first + rest[:len(rest) // 2] + [late] * len(scripts[late]) + rest[len(rest) // 2:]]
+            kill_at = len(first)
     solo = {}
     for i in scripts:
         if i == short:
@@ -151,7 +170,7 @@ def run_case(case):
     changes = sum(1 for i in scripts if any(b and ("settings" in b and b["settings"]) for _, b in scripts[i]))
     for order in orders:
         counters["interleavings"] = counters.get("interleavings", 0) + 1
-        got = play(scripts, order, case["shared"], case["adapter"], kill, kill_at, short)
+        got = play(scripts, order, case["shared"], case["adapter"], kill, kill_at, short, creation=case.get("creation", "upfront"))
         if changes >= 2 and any(order[j] != order[j + 1] for j in range(len(order) - 1)):
             nts.append("%d:%s" % (case["seed"], "".join(map(str, order))))
         for i in solo:
